@@ -1,0 +1,15 @@
+//go:build verif
+
+package time
+
+// Contracts (structured comments read by /verif/engine). Comment-only file.
+
+// C19: safety sweep of the hand-written bodies behind the time module
+// (dateFuncEx and parseFuncEx are left out: they need Location arguments to be
+// well formed - non-nil pointer with a non-nil *time.Location - which the
+// argument predicate of package ugo cannot state).
+
+//@ func monthStringFunc, weekdayStringFunc, durationStringFunc, durationNanosecondsFunc, durationMicrosecondsFunc, durationMillisecondsFunc, durationSecondsFunc, durationMinutesFunc, durationHoursFunc, parseDurationFunc, durationRoundFunc, durationTruncateFunc, fixedZoneFunc, loadLocationFunc, isLocationFunc, unixFuncEx, isTimeFunc
+//@ requires $args
+//@ opaque String, TypeName
+//@ property C19
